@@ -406,6 +406,7 @@ def run(ctx, tier):
                 probs.append('subspaces are %s, expected [real_vector, so2|so3]' % space_kinds)
             if len(weights) != 2 or weights[0] != T(('const', '1.0f')) or not all(n[0] == 'param' and b.local_ty(n[1]) == 'f64' for n in weights[1]):
                 probs.append('weights are %s, expected [1.0, <weight parameter>]' % [fmt_terms(w)[:20] for w in weights])
+        probs += _bounds_forwarded(ctx, b, fn)
         r_se.inst('%s: subspaces %s weights %s; state components %s' % (b.path, space_kinds, [fmt_terms(w)[:12] for w in (weights or [])], state_kinds),
                   ok=not probs, site=b.loc(0))
         for o, pr in enumerate(probs):
@@ -413,6 +414,68 @@ def run(ctx, tier):
     if n_se < 2:
         r_se.violations.append(Violation('C13', 'C13.se', 'oxmpl', 'floor', 'only %d newtype-over-compound spaces found (floor 2)' % n_se))
     return [r_match, r_index, r_dep, r_se]
+
+
+def _bounds_forwarded(ctx, b, fn):
+    """the wrapper hands the given bounds to its component constructors as they are: every Option argument of a component
+    space constructor is `Some(<elements of the given vector, no arithmetic>)` or, only when no bounds were given at all,
+    `None`.  A wrapper that decides on the bound VALUES itself (drops, widens, reorders by value) no longer behaves as the
+    compound of its documented parts."""
+    from .c12 import space_adts
+    from .. import planner as P
+    probs = []
+    spaces = set(space_adts(ctx))
+    opt_params = [i for i in range(1, b.arg_count + 1) if b.local_ty(i).startswith('std::option::Option<')]
+    if not opt_params:
+        return probs
+    pi = opt_params[0]
+    de = fn.discr_edges(lambda ts: bool(ts) and all(n[0] == 'param' and n[1] == pi for n in ts))
+    none_edges = set(de.get('0', set()))
+    if '1' in de and '0' not in de:
+        none_edges |= de.get('otherwise', set())
+    n_calls = 0
+    # a component that is never given bounds (the rotation part of SE(3)) is unbounded by design: None is then not a drop
+    bounded = set()
+    for bi, t in b.calls():
+        cb = ctx.core.body(t['func'].get('path') or '')
+        if cb is None or cb.name != 'new' or cb.j.get('impl_adt') not in spaces:
+            continue
+        for j, a in enumerate(t['args']):
+            if cb.local_ty(j + 1).startswith('std::option::Option<') and any(
+                    n[0] == 'agg' and n[2] == 'Some' for (_db, _di, ts) in fn.split_defs(a, (bi, fn.nstmts(bi))) for n in ts):
+                bounded.add(cb.j.get('impl_adt'))
+    for bi, t in b.calls():
+        cb = ctx.core.body(t['func'].get('path') or '')
+        if cb is None or cb.name != 'new' or cb.j.get('impl_adt') not in spaces or cb.j.get('impl_adt') == b.j.get('impl_adt'):
+            continue
+        if cb.j.get('impl_adt') not in bounded:
+            continue
+        for j, a in enumerate(t['args']):
+            if not cb.local_ty(j + 1).startswith('std::option::Option<'):
+                continue
+            n_calls += 1
+            pl = a.get('move') or a.get('copy')
+            if pl is None:
+                continue
+            for (db, di, ts) in fn.split_defs(a, (bi, fn.nstmts(bi))):
+                for n in ts:
+                    if n[0] == 'agg' and n[2] == 'None':
+                        if not none_edges or not P.guarded(fn, db, none_edges):
+                            probs.append('%s can be given None although bounds were supplied (decided at %s): the wrapper drops the given '
+                                         'bounds instead of forwarding them' % (cb.path.rsplit('::', 2)[-2], fn.loc(db, di)))
+                    elif n[0] == 'agg' and n[2] == 'Some' and n[3]:
+                        bad = [m for m in walk(n[3][0][1]) if m[0] in ('binop', 'unop') or
+                               (m[0] == 'call' and m[1].startswith(('core::f64::', 'std::f64::')))]
+                        src = [m for m in walk(n[3][0][1]) if m[0] == 'param']
+                        if bad or not src or any(m[1] != pi for m in src):
+                            probs.append('%s is given bounds computed by the wrapper (%s), not the elements of the given vector' % (
+                                cb.path.rsplit('::', 2)[-2], fmt_terms(n[3][0][1])[:60]))
+                    elif n[0] == 'param' and n[1] == pi:
+                        continue
+                    else:
+                        probs.append('the bounds argument of %s is %s (unrecognised shape: neither Some(<given elements>) nor None)' % (
+                            cb.path.rsplit('::', 2)[-2], fmt_terms(T(n))[:60]))
+    return list(dict.fromkeys(probs))
 
 
 def _ret_terms(fn):
